@@ -7,7 +7,7 @@ from harness import pipeline as PL, solver as S
 
 SPEC = {
     "gen": ["Rotations"],
-    "modules": ["DiffcalcProofs.Props.C05", "DiffcalcProofs.Props.C05Geo", "DiffcalcProofs.Props.C05Psi"],
+    "modules": ["DiffcalcProofs.Props.C05", "DiffcalcProofs.Props.C05Geo", "DiffcalcProofs.Props.C05Psi", "DiffcalcProofs.Props.C11"],
     "theorems": {"DiffcalcProofs.Props.C05": [
         "C05.virtualAngles_scale_ref", "C05.virtualAngles_scale_surf", "C05.normalised_smul_pos", "C05.cos_ttheta_geometric",
         "C05.sin_beta_geometric", "C05.qaz_geometric"],
@@ -140,13 +140,26 @@ def oracle(ctx, widen=1):
         for k1, k2 in ((1, 1), (2, 1), (0.1, 7), (7, 0.1), (1, 2), (3e-8, 1), (1, 1e-9), (2e5, 4e6)):      # any positive length
             apply_vectors(ub, v, w, frames, k1, k2)
             kinds.add((frames, k1, k2, regime))
+            nphi, sphi = PL.vectors(ub)         # the vectors as set, read before anything else happens
+            if ctx.rng.random() < 0.3:
+                # a second calculation made from this one (shallow copy) is given other vectors, in the other frames: none of this one's business
+                import copy as _copy
+                ub2 = _copy.copy(ub)
+                if frames[0] == "hkl":
+                    ub2.n_phi = (0.1, 0.7, -0.3)
+                else:
+                    ub2.n_hkl = (1, -2, 0.5)
+                if frames[1] == "hkl":
+                    ub2.surf_nphi = (0.4, -0.2, 0.9)
+                else:
+                    ub2.surf_nhkl = (0.3, 1, -1)
+                kinds.add((frames, k1, k2, regime, "shallow-copy"))
             try:
                 with quiet():
                     va = hc.get_virtual_angles(Position(*pos))
             except Exception as e:  # noqa
                 bad = f"raised {type(e).__name__}: {str(e)[:80]} with the reference vector x{k1} ({frames[0]} frame) and the surface vector x{k2} ({frames[1]} frame)"
                 break
-            nphi, sphi = PL.vectors(ub)
             pp = pseudo(nphi, sphi, pos)
             th = math.radians(pp["theta"])
             skip = set()
